@@ -9,7 +9,9 @@ for things that run in a worker thread).  Nothing here predicts anything: the mo
 import asyncio
 import dataclasses
 import gc
+import io
 import json
+import logging
 import threading
 import time as time_mod
 from concurrent.futures import Executor, ThreadPoolExecutor
@@ -41,8 +43,9 @@ class QueueDown(BrokerError):
 
 # exception class table shared with harness/props (identifier -> class)
 EXC = {0: NoResultError, 1: TimeoutError, 2: LookupError, 3: ValueError, 4: CustomError, 5: KeyboardInterrupt,
-       6: SystemExit, 7: asyncio.CancelledError, 8: GeneratorExit}
+       6: SystemExit, 7: asyncio.CancelledError, 8: GeneratorExit, 9: ExceptionGroup, 10: BaseExceptionGroup}
 EXC_ID = {v.__name__: k for k, v in EXC.items()}
+EXC_REG = {}     # classes made by exc_class (subclasses of the table's classes) -> identifier of their table class
 HOOKS_MSG = ("pre_send", "pre_execute")
 HOOKS_ALL = ("pre_send", "post_send", "pre_execute", "on_error", "post_execute", "post_save")
 
@@ -75,6 +78,8 @@ def excid(e):
         return None
     if isinstance(e, BaseException):
         e = type(e)
+    if e in EXC_REG:
+        return EXC_REG[e]
     return EXC_ID.get(e.__name__, 900)
 
 
@@ -580,6 +585,189 @@ def make_mws(specs, tbl, base=0):
     return out
 
 
+# ------------------------------------------------------------------------------------- what a task body raises
+class OddError(Exception):
+    """raised by the special methods of the exception classes below (never CustomError: that one means "a hook failed")"""
+
+
+def exc_class(eid, x):
+    """the class of the exception a task body raises: EXC[eid] itself (x["cls"] absent) or a class derived from it - for
+    the pipeline (and the model) still "an EXC[eid]": the no-result signal iff it is a NoResultError, an error otherwise.
+      cls   sub        plain subclass
+            eq         defines __eq__: x["eq"] = value (by a key, equal across instances) | always | never | raises
+            dataclass  a real @dataclass exception with two fields (eq=True: instances are NOT hashable by default)
+            init       its own __init__ signature (keyword-only argument, args rewritten): cls(*exc.args) does not work
+      hash  id (identity, the default of an exception) | none (__hash__ = None: what defining __eq__ alone or @dataclass
+            gives) | value (consistent with __eq__ / the fields) | raises (hashing fails at run time: unhashable content)
+      truth bool (__bool__ False) | len (__len__ 0: a container-like exception that is empty)
+      str   str | repr | both: __str__ / __repr__ raise
+    One class per distinct description and case: two messages raising "the same class" share it."""
+    kind = x.get("cls")
+    base = EXC[eid]
+    if not kind:
+        return base
+    key = json.dumps([eid, {k: x.get(k) for k in ("cls", "eq", "hash", "truth", "str")}], sort_keys=True)
+    cache = CUR.setdefault("exc_classes", {})
+    if key in cache:
+        return cache[key]
+    ns = {}
+    h = x.get("hash", "id")
+    if kind == "eq":
+        ek = x["eq"]
+        if ek == "value":
+            ns["__eq__"] = lambda self, other: isinstance(other, BaseException) and \
+                getattr(other, "_k", None) == getattr(self, "_k", 0)
+        elif ek == "always":
+            ns["__eq__"] = lambda self, other: True
+        elif ek == "never":
+            ns["__eq__"] = lambda self, other: False
+        elif ek == "raises":
+            def __eq__(self, other):
+                raise OddError("exceptions of this class cannot be compared")
+            ns["__eq__"] = __eq__
+        else:
+            raise ValueError(ek)
+    if h == "none":
+        ns["__hash__"] = None
+    elif h == "raises" and kind != "dataclass":
+        def __hash__(self):
+            raise TypeError("unhashable type: 'list'")
+        ns["__hash__"] = __hash__
+    elif h == "value" and kind != "dataclass":
+        ns["__hash__"] = lambda self: hash(("exc", 0 if x.get("eq") == "always" else getattr(self, "_k", 0)))
+    elif h == "id" and kind in ("eq", "dataclass"):
+        ns["__hash__"] = BaseException.__hash__      # (defining __eq__ alone would make the class unhashable)
+    if x.get("truth") == "bool":
+        ns["__bool__"] = lambda self: False
+    elif x.get("truth") == "len":
+        ns["__len__"] = lambda self: 0
+    if x.get("str") in ("str", "both"):
+        def __str__(self):
+            raise OddError("this exception has no text")
+        ns["__str__"] = __str__
+    if x.get("str") in ("repr", "both"):
+        def __repr__(self):
+            raise OddError("this exception has no representation")
+        ns["__repr__"] = __repr__
+    name = "%s%s" % ({"sub": "My", "eq": "Coded", "dataclass": "Quota", "init": "Detailed"}[kind], base.__name__)
+    if kind == "init":
+        def __init__(self, *, code, detail="d"):
+            base.__init__(self, "E%d" % code)
+            self.code, self.detail = code, detail
+        ns["__init__"] = __init__
+    if kind == "dataclass":
+        # hash = value / raises: unsafe_hash=True hashes the field tuple (raises when a field holds a list)
+        cls = dataclasses.make_dataclass(name, [("user", object), ("limit", object)], bases=(base,), namespace=ns,
+                                         eq=True, unsafe_hash=h in ("value", "raises"))
+    else:
+        cls = type(name, (base,), ns)
+    EXC_REG[cls] = eid
+    cache[key] = cls
+    return cls
+
+
+def exc_args(kind):
+    if kind is None:
+        return ("boom",)
+    if kind == "empty":
+        return ()
+    if kind == "unpicklable":
+        return ("boom", lambda: None)
+    if kind == "unjsonable":
+        return ({1, 2}, b"\xff\x00", object())
+    if kind == "huge":
+        return ("x" * 1_000_000,)
+    if kind == "nested":
+        return ([1, {"a": (2, 3)}], None, 2.5)
+    raise ValueError(kind)
+
+
+def exc_instance(eid, x):
+    """the exception OBJECT a task body raises (x = out["x"]; absent / empty: EXC[eid]() as always).  Besides the class
+    (exc_class):
+      args    empty | unpicklable (a lambda) | unjsonable (set, bytes, object()) | huge (1 MB str) | nested; absent: ("boom",)
+      attr    unpicklable: an instance attribute holding a lock
+      group   [members {raise, x}]: EXC[eid] is ExceptionGroup / BaseExceptionGroup (or a subclass) over these
+      chain   [{via: cause | context, raise, x}]: head -> link -> link ... through __cause__ (`raise .. from ..`) or __context__
+              (raised while the link was being handled); every link was really raised once (has a traceback)
+      cycle   context | cause: the last object of the chain points back to the head (with an empty chain: to itself)
+      suppress  explicit __suppress_context__
+      shared  one object per case: every message with this description raises the SAME instance (a module-level
+              `ERR = MyError(..)`; `raise ERR`)"""
+    x = x or {}
+    skey = None
+    if x.get("shared"):
+        skey = json.dumps([eid, x], sort_keys=True)
+        cache = CUR.setdefault("exc_shared", {})
+        if skey in cache:
+            return cache[skey]
+    cls = exc_class(eid, x)
+    kind = x.get("cls")
+    args = exc_args(x.get("args"))
+    if x.get("group") is not None:
+        e = cls("several failures", [exc_instance(m["raise"], m.get("x")) for m in x["group"]])
+    elif kind == "dataclass":
+        e = cls(args[0] if args else "bob", [3] if x.get("hash") == "raises" else args[1] if len(args) > 1 else 3)
+    elif kind == "init":
+        e = cls(code=7)
+    elif eid == 0 or not x:
+        e = cls()                            # (NoResultError: izulu template errors take no positional arguments)
+    else:
+        e = cls(*args)
+    if kind:
+        e._k = x.get("key", 0)
+    if x.get("attr") == "unpicklable":
+        e.resource = threading.Lock()
+    prev = e
+    for ln in x.get("chain") or []:
+        c = exc_instance(ln["raise"], ln.get("x"))
+        try:
+            raise c                          # a link is an exception that was raised (and caught) before
+        except BaseException as z:           # noqa
+            c = z
+        if ln["via"] == "cause":
+            prev.__cause__ = c               # what `raise prev from c` does (sets __suppress_context__)
+        else:
+            prev.__context__ = c             # what raising prev inside `except c:` does
+        prev = c
+    if x.get("cycle") == "cause":
+        prev.__cause__ = e
+    elif x.get("cycle"):
+        prev.__context__ = e
+    if x.get("suppress") is not None:
+        e.__suppress_context__ = bool(x["suppress"])
+    if skey is not None:
+        CUR["exc_shared"][skey] = e
+    return e
+
+
+class _Sink(io.StringIO):
+    """where the worker's log goes in the cases that run with logging configured"""
+
+
+def logging_on():
+    """what every real worker has: logging configured (run_worker calls basicConfig) - records of every level are formatted
+    (str() of the logged exception, its traceback with the whole cause / context chain).  The driver process runs with
+    logging disabled otherwise."""
+    root = logging.getLogger()
+    st = (root.manager.disable, root.level, logging.raiseExceptions, list(root.handlers))
+    h = logging.StreamHandler(_Sink())
+    h.setFormatter(logging.Formatter("[%(asctime)s][%(name)s][%(levelname)s] %(message)s"))
+    root.handlers = [h]
+    root.setLevel(logging.DEBUG)
+    logging.raiseExceptions = False          # (a record that cannot be formatted is dropped silently, not printed)
+    logging.disable(logging.NOTSET)
+    return st
+
+
+def logging_off(st):
+    root = logging.getLogger()
+    root.handlers = st[3]
+    root.setLevel(st[1])
+    logging.raiseExceptions = st[2]
+    logging.disable(st[0])
+
+
 # ------------------------------------------------------------------------------------- receive side
 def make_task(broker, i, M, loop):
     out = M["out"]
@@ -587,7 +775,7 @@ def make_task(broker, i, M, loop):
     def finish_body():
         if "raise" in out:
             log(i, "body.end", "raise", out["raise"])
-            raise EXC[out["raise"]]()
+            raise exc_instance(out["raise"], out.get("x"))
         log(i, "body.end", "ret", out["ret"])
         return out["ret"]
 
@@ -613,7 +801,7 @@ def make_task(broker, i, M, loop):
     def dep_sync():
         log(i, "dep.open")
         if M["dep"] == "fail":
-            raise LookupError("dep")
+            raise exc_instance(2, M["dep_x"]) if M.get("dep_x") else LookupError("dep")
         try:
             yield 1
         except BaseException as e:
@@ -626,7 +814,7 @@ def make_task(broker, i, M, loop):
         log(i, "dep.open")
         await susp(M.get("dep_susp"))
         if M["dep"] == "fail":
-            raise LookupError("dep")
+            raise exc_instance(2, M["dep_x"]) if M.get("dep_x") else LookupError("dep")
         try:
             yield 1
         except BaseException as e:
@@ -977,11 +1165,14 @@ def run_recv(case):
         cli_kw = cli_glue.receiver_kwargs_via_cli(case["cli"], InMemoryBroker())
     _CLI["kw"] = cli_kw
     real_time = time_mod.time
+    lst = logging_on() if case.get("logging") else None
     try:
         # origin of the loop's monotonic clock (arbitrary on a real host: seconds since boot)
         lg, end = run_on_loop(main, int(float((case.get("wall") or {}).get("mono0", 0)) * 1_000_000))
     finally:
         time_mod.time = real_time
+        if lst is not None:
+            logging_off(lst)
     return {"log": lg, "end_us": end}
 
 
